@@ -37,10 +37,12 @@ const (
 	opRangeLin
 	opRangeSer
 	opIterLin
+	opTxnReadonlyNoCmp
+	opIterSer
 	nOps
 )
 
-var opName = []string{"put", "delete-range", "txn(write)", "txn(empty-taken-branch)", "txn(read-only)", "range(linearizable)", "range(serializable)", "iterate(linearizable)"}
+var opName = []string{"put", "delete-range", "txn(write)", "txn(empty-taken-branch)", "txn(read-only)", "range(linearizable)", "range(serializable)", "iterate(linearizable)", "txn(read-only,no-predicates)", "iterate(serializable)"}
 
 type prog struct {
 	Node int   `json:"node"`
@@ -177,14 +179,20 @@ func mk(c Case, reuse []*fsmx.Inst, base uint64) (sched.Scenario, *world) {
 					if err == nil {
 						rec.resp = fmt.Sprintf("succeeded=%v %s", r.Succeeded, fsmx.RespsStr(r.Responses))
 					}
+				case opTxnReadonlyNoCmp:
+					r, err := at.Txn(ctx, &regattapb.TxnRequest{Table: Table, Success: Ops(OpGet("a", wild, 0, false, false))})
+					rec.err = err
+					if err == nil {
+						rec.resp = fmt.Sprintf("succeeded=%v %s", r.Succeeded, fsmx.RespsStr(r.Responses))
+					}
 				case opRangeLin, opRangeSer:
 					r, err := at.Range(ctx, &regattapb.RangeRequest{Table: Table, Key: B("a"), RangeEnd: wild, Linearizable: op == opRangeLin})
 					rec.err = err
 					if err == nil {
 						rec.resp = rangeStr(r.Kvs, r.Count, r.More)
 					}
-				case opIterLin:
-					seq, err := at.Iterator(ctx, &regattapb.RangeRequest{Table: Table, Key: B("a"), RangeEnd: wild, Linearizable: true})
+				case opIterLin, opIterSer:
+					seq, err := at.Iterator(ctx, &regattapb.RangeRequest{Table: Table, Key: B("a"), RangeEnd: wild, Linearizable: op == opIterLin})
 					rec.err = err
 					if err == nil {
 						t.Point(fmt.Sprintf("c%d.%d:first-pull", ci, k))
@@ -266,6 +274,9 @@ func check(x sched.Exec, w *world, c Case) (vs []viol, outcome string) {
 		case opTxnReadonly:
 			ok, rs := s.Clone().Txn(Cmps(Exists("a", nil)), Ops(OpGet("a", wild, 0, false, false)), Ops(OpGet("b", nil, 0, false, false)))
 			return fmt.Sprintf("succeeded=%v %s", ok, fsmx.RespsStr(rs))
+		case opTxnReadonlyNoCmp:
+			ok, rs := s.Clone().Txn(nil, Ops(OpGet("a", wild, 0, false, false)), nil)
+			return fmt.Sprintf("succeeded=%v %s", ok, fsmx.RespsStr(rs))
 		default:
 			r := s.Range(&regattapb.RequestOp_Range{Key: B("a"), RangeEnd: wild})
 			return rangeStr(r.Kvs, r.Count, r.More)
@@ -289,7 +300,7 @@ func check(x sched.Exec, w *world, c Case) (vs []viol, outcome string) {
 			}
 		} else {
 			lo := r.ci
-			if r.op == opRangeSer {
+			if r.op == opRangeSer || r.op == opIterSer {
 				lo = w.base
 			}
 			ok := false
@@ -395,7 +406,7 @@ func exploreCase(r *evid.Run, c Case) {
 
 func Run(r *evid.Run) {
 	r.Check = "c10"
-	r.Rule("scenarios = client programs over {put(prev), delete-range(prev,count), write txn, txn whose taken branch is empty, read-only txn, linearizable range, serializable range, linearizable iterator} on colliding keys a,b: client A with 1-2 operations, client B with 1 operation (thorough: also a third client with 1 operation on the lagging node), each bound to the eager node 0 or the lagging node 1 (3 bindings); real table.ActiveTable and real FSM replicas over the simulated Raft host; scheduling points at invoke, append, wait-applied, read-index capture, lookup, first pull, return and every apply call of the lagging node, whose batch size {1, all pending} is a data choice; ALL interleavings with visited-state pruning on (log, replica positions, per-client response histories). Oracle from the log as ground truth: revision != 0 and = log index, every mutation response = model replay in index order, linearizable reads / read-only txns equal the model at some index in [commit@invoke, commit@return], serializable reads at some index <= commit@return. Non-trivial: every execution; distinct = distinct (scenario, revisions+responses)")
+	r.Rule("scenarios = client programs over {put(prev), delete-range(prev,count), write txn, txn whose taken branch is empty, read-only txn with and without predicates, linearizable and serializable range, linearizable and serializable iterator} on colliding keys a,b: client A with 1-2 operations, client B with 1 operation (thorough: also a third client with 1 operation on the lagging node), each bound to the eager node 0 or the lagging node 1 (3 bindings); real table.ActiveTable and real FSM replicas over the simulated Raft host; scheduling points at invoke, append, wait-applied, read-index capture, lookup, first pull, return and every apply call of the lagging node, whose batch size {1, all pending} is a data choice; ALL interleavings with visited-state pruning on (log, replica positions, per-client response histories). Oracle from the log as ground truth: revision != 0 and = log index, every mutation response = model replay in index order, linearizable reads / read-only txns equal the model at some index in [commit@invoke, commit@return], serializable reads at some index <= commit@return. Non-trivial: every execution; distinct = distinct (scenario, revisions+responses)")
 	p2, p1 := programs(2), programs(1)
 	bindings := [][2]int{{0, 1}, {1, 1}, {1, 0}}
 	var cases []Case
